@@ -85,7 +85,8 @@ FOOTER = "End Cases.\n"
 
 class Case:
     def __init__(self, name, out, inp=None, spec=None, hyps=(), comps=None, note=None, ctx=None,
-                 tactic=None, side="s", check_fidx=True, named=None):
+                 tactic=None, side="s", check_fidx=True, named=None,
+                 refvalue_terminal=False):
         assert (inp is None) != (spec is None)
         self.name = name
         self.out, self.inp, self.spec = out, inp, spec
@@ -97,6 +98,7 @@ class Case:
         self.side = side
         self.check_fidx = check_fidx
         self.named = named or {}
+        self.refvalue_terminal = refvalue_terminal
         self.lemmas = []
 
     def components(self):
@@ -105,11 +107,11 @@ class Case:
         return list(itertools.product(*[range(d) for d in self.out.ufl_shape]))
 
     def emit(self):
-        ser = ufl2coq.Ser(self.ctx, prefix=f"{self.name}_n")
+        ser = ufl2coq.Ser(self.ctx, prefix=f"{self.name}_n", refvalue_terminal=self.refvalue_terminal)
         t_out = ser.expr(self.out)
         t_inp = ser.expr(self.inp) if self.inp is not None else None
+        nm = {k: ser.expr(v) for k, v in self.named.items()}
         txt = [f"(* case {self.name}: {self.note} *)\n", ser.definitions_text()]
-        unfold = " ".join(ser.def_names())
         txt.append(f"Definition {self.name}_out : expr := {t_out}.\n")
         if t_inp is not None:
             txt.append(f"Definition {self.name}_in : expr := {t_inp}.\n")
@@ -127,7 +129,6 @@ class Case:
         if t_inp is not None:
             txt.append(f"Example {self.name}_shape_in : shape {self.name}_in = {sh}. Proof. reflexivity. Qed.\n")
             self.lemmas.append(f"{self.name}_shape_in")
-        nm = {k: ser.expr(v) for k, v in self.named.items()}
         for k, v in nm.items():
             txt.append(f"Definition {self.name}_{k} : expr := {v}.\n")
         hyps = "".join("(" + h.format(**{k: f"{self.name}_{k}" for k in nm}) + ") -> " for h in self.hyps)
